@@ -1028,3 +1028,135 @@ func genC20Batch(rng *hx.Rng, n int, tier string, emit func(hx.Input)) {
 		}
 	}
 }
+
+// ---------------------------------------------------------------------------------------------
+// c20_huge: files of 9..40 MB (beyond the 8 MiB / 32 MiB sizes at which an implementation may start
+// to scan or read in segments), described by a few numbers instead of their bytes: the runner builds
+// the file from the descriptor, reads it through the tuner's own Batches/Chunks schedule for the
+// given epoch and reports a digest of the comparison "delivered lines vs non-blank lines of the file"
+// (multiset comparison done here; the judge only reads the counters). Lines are laid out so that a
+// non-blank line STARTS exactly on every multiple of 1 MiB (hence on 4, 8, 16, 32 MiB), another one
+// ENDS exactly there, and a blank line sits right behind some of them.
+//
+// input  = [seed mib epoch]      output = [status expected delivered missing extra maxLineLen boundaryStarts]
+func init() {
+	hx.Register(&hx.Stream{Name: "c20_huge", Gen: genC20Huge, Run: runC20Huge})
+}
+
+func c20HugeData(seed uint64, mib int) ([]byte, int) {
+	r := hx.NewRng(seed)
+	size := mib << 20
+	data := make([]byte, 0, size+256)
+	const step = 1 << 20
+	next := step
+	starts := 0
+	for len(data) < size {
+		l := 8 + r.Intn(110)
+		room := next - len(data)
+		switch {
+		case room == 0:
+			// a line starts exactly on the boundary
+			starts++
+			next += step
+		case room <= 130:
+			// end this line exactly on the boundary (room-1 bytes + newline); sometimes leave a blank line
+			// in front of the boundary instead
+			if room >= 3 && r.Chance(0.3) {
+				l = room - 2
+				for i := 0; i < l; i++ {
+					data = append(data, byte('a'+r.Intn(26)))
+				}
+				data = append(data, '\n', '\n')
+				continue
+			}
+			l = room - 1
+		}
+		for i := 0; i < l; i++ {
+			data = append(data, byte('a'+r.Intn(26)))
+		}
+		data = append(data, '\n')
+		if next-len(data) > 140 && r.Chance(0.01) {
+			data = append(data, '\n') // a blank line away from the boundaries
+		}
+	}
+	return data, starts
+}
+
+func runC20Huge(a hx.Args) string {
+	return c20Guard(120*time.Second, func() string {
+		seed, mib, epoch := a.U64(0), a.Int(1), a.Int(2)
+		if mib < 1 || mib > 64 {
+			return "badinput"
+		}
+		data, starts := c20HugeData(seed, mib)
+		f, err := os.CreateTemp("", "c20huge-*.epd")
+		if err != nil {
+			panic(err)
+		}
+		defer os.Remove(f.Name())
+		if _, err := f.Write(data); err != nil {
+			panic(err)
+		}
+		f.Close()
+		want := map[string]int{}
+		expected, maxLen := 0, 0
+		for _, l := range bytes.Split(data, []byte{'\n'}) {
+			if len(l) > 0 {
+				want[string(l)]++
+				expected++
+				maxLen = max(maxLen, len(l))
+			}
+		}
+		data = nil
+		out := &hx.Nums{}
+		ck, err := epd.NewChunker(f.Name())
+		if err != nil {
+			return out.Int(1, expected, 0, 0, 0, maxLen, starts).String()
+		}
+		delivered, extra := 0, 0
+		for batch := range tuning.Batches(ck.LineCount()) {
+			for c := range tuning.Chunks(batch) {
+				ch, err := ck.Open(epoch, c.Start, c.End)
+				if err != nil {
+					return out.Int(2, expected, delivered, 0, 0, maxLen, starts).String()
+				}
+				for {
+					l, err := ch.Read()
+					if err == io.EOF {
+						break
+					}
+					if err != nil {
+						ch.Close()
+						return out.Int(3, expected, delivered, 0, 0, maxLen, starts).String()
+					}
+					delivered++
+					if want[string(l)] > 0 {
+						want[string(l)]--
+					} else {
+						extra++
+					}
+				}
+				ch.Close()
+			}
+		}
+		missing := 0
+		for _, k := range want {
+			missing += k
+		}
+		return out.Int(0, expected, delivered, missing, extra, maxLen, starts).String()
+	})
+}
+
+func genC20Huge(rng *hx.Rng, n int, tier string, emit func(hx.Input)) {
+	for i := 0; i < n; i++ {
+		mib := []int{9, 17, 12, 33, 24, 40}[i%6]
+		if tier == "quick" {
+			mib = []int{9, 17}[i%2]
+		}
+		seed := rng.U64() >> 1
+		epoch := c20Epoch(rng)
+		in := (&hx.Nums{}).U(seed).Int(mib).I(epoch).String()
+		emit(hx.Input{In: in, Desc: fmt.Sprintf("generated file of %d MiB (seed %d; a line starts on every multiple of 1 MiB), every Chunks of every Batches, epoch=%d", mib, seed, epoch),
+			Tags: []string{fmt.Sprintf("size=%dMiB", mib)}, NonTrivial: true})
+	}
+}
